@@ -1,7 +1,7 @@
 SPECIFICATION Spec
 CONSTANTS
  Schema <- CkbSchema
- MaxWords = 5
+ MaxWords = 4
  WordLows = {0, 1, 2, 4, 5, 8, 12, 16, 20}
  HighWord = TRUE
  OddByte = 7
